@@ -103,6 +103,21 @@ func c17ProgramB(r *run.Rng) []rec.Op {
 
 // c17HistoryA builds a dirtying history; kind says what it is.
 func c17HistoryA(c *run.Ctx, r *run.Rng) (ops []rec.Op, hires bool, kind string) {
+	if r.Chance(1, 16) {
+		// Next to nothing, on an object that was never Reset: no call at all (the
+		// harness may still ask for Bytes), or a single selector / level-of-detail
+		// call. The object holds little more than what a zero value implies.
+		c.Count("A_next_to_nothing_on_a_never_reset_object", 1)
+		switch r.Intn(4) {
+		case 1:
+			ops = append(ops, rec.Op{K: rec.KSetCSel, Sel: uint8(r.Intn(64))})
+		case 2:
+			ops = append(ops, rec.Op{K: rec.KSetNSel, Sel: uint8(r.Intn(64))})
+		case 3:
+			ops = append(ops, rec.Op{K: rec.KSetLOD, F: [6]float32{1, 2}})
+		}
+		return ops, false, "well-formed"
+	}
 	if r.Chance(1, 8) {
 		// A history that keeps both selectors low and reaches the top registers
 		// only by wrap-around addressing (register (SEL-ADJ) mod 64 with SEL < ADJ):
